@@ -130,9 +130,8 @@ pub fn judge(scn: &Scenario, rr: &RunResult, out: &mut Vec<Viol>) {
     {
         let mut owner: std::collections::BTreeMap<u64, std::thread::ThreadId> = Default::default();
         for (idx, th) in &rr.trace.matcher_use {
-            if *idx == u64::MAX {
-                v(out, "C09", "scratch_used_outside_pool", "a matcher scratch slot was requested from a thread that is not a pool thread".into());
-            } else if let Some(o) = owner.insert(*idx, *th) {
+            // idx is the address of the scratch slot the library actually handed out
+            if let Some(o) = owner.insert(*idx, *th) {
                 if o != *th {
                     v(out, "C09", "scratch_shared", format!("matcher scratch slot {idx} was used by two OS threads"));
                 }
